@@ -25,6 +25,19 @@ def boolD (s : String) : Bool := s == "true"
 
 def optAddr (s : String) : Option Nat := if s == "-" then none else some (hexNat s)
 
+def hexDigitChar (n : Nat) : Char := if n < 10 then Char.ofNat (48 + n) else Char.ofNat (87 + n)
+
+/-- Lowercase hex of `n`, left-padded with zeros to `width` digits (addresses: 40, public keys: 64). -/
+def hexPad (n : Nat) (width : Nat) : String :=
+  let rec go (fuel : Nat) (n : Nat) (acc : List Char) : List Char :=
+    match fuel with
+    | 0 => acc
+    | fuel + 1 => go fuel (n / 16) (hexDigitChar (n % 16) :: acc)
+  String.ofList (go width n [])
+
+def fnv64 (s : String) : UInt64 :=
+  s.toUTF8.foldl (fun h b => (h ^^^ b.toUInt64) * 1099511628211) 14695981039346656037
+
 abbrev Dump := Std.HashMap String String
 
 def words (s : String) : List String := (s.splitOn " ").filter (· ≠ "")
@@ -114,6 +127,7 @@ def State.ofDump (d : Dump) : State := Id.run do
     | ["app", "nextorder"] => s := { s with nextOrder := natD v }
     | ["app", "ncoins"] => s := { s with ncoins := natD v }
     | ["app", "rewards"] => s := { s with rewardsPool := intD v }
+    | ["app", "totalstakes"] => s := { s with totalStakes := intD v }
     | ["app", "reward"] =>
       match vw with
       | [r, sr] => s := { s with reward := intD r, safeReward := intD sr }
@@ -136,6 +150,101 @@ def State.ofDump (d : Dump) : State := Id.run do
     pools := sortBy (fun a b => a.id < b.id) s.pools,
     orders := sortBy (fun a b => a.id < b.id) s.orders,
     validators := sortBy (fun a b => a.pubkey < b.pubkey) s.validators }
+
+/-- Digest of a price table given as (field, decimal value) pairs: FNV-64 of the values in field order (harness/dump.go `commissionDigest`). -/
+def comDigestOf (c : List (String × String)) : String :=
+  let sorted := sortBy (fun a b => a.1 < b.1) c
+  let txt := String.join (sorted.map (fun e => e.2 ++ ","))
+  hexPad (fnv64 txt).toNat 16 |>.toList |>.dropWhile (· == '0') |> String.ofList
+
+def addrS (a : Nat) : String := hexPad a 40
+def pkS (a : Nat) : String := hexPad a 64
+def optAddrS (a : Option Nat) : String := match a with | some x => addrS x | none => "-"
+def optPkS (a : Option Nat) : String := match a with | some x => pkS x | none => "-"
+
+def lookupFirst {α : Type} (p : α → Bool) : List α → Option α
+  | [] => none
+  | x :: t => if p x then some x else lookupFirst p t
+
+/-- The dump value the state holds under a dump key (`none` = the key is absent); the inverse of `State.ofDump` on the keys
+    the transaction model can change.  `st` entries are rendered without the slot index, `v` entries as `live`/`drop`. -/
+def State.valueAt (s : State) (key : String) : Option String :=
+  match words key with
+  | ["b", a, c] =>
+    let v := Bag.get s.balances (hexNat a, natD c)
+    if v == 0 then none else some (toString v)
+  | ["n", a] =>
+    match s.nonces.lookup (hexNat a) with
+    | some n => if n == 0 then none else some (toString n)
+    | none => none
+  | ["ms", a] =>
+    match s.multisigs.lookup (hexNat a) with
+    | some ms => if ms.owners.isEmpty then none else
+      some (s!"{ms.threshold} " ++ ",".intercalate (ms.owners.map (fun e => s!"{addrS e.1}:{e.2}")))
+    | none => none
+  | ["ls", a] =>
+    match s.lockStake.lookup (hexNat a) with
+    | some h => if h == 0 then none else some (toString h)
+    | none => none
+  | ["c", id] =>
+    match lookupFirst (fun ci => ci.id == natD id) s.coins with
+    | some ci => some s!"{ci.symbol} {ci.version} {ci.volume} {ci.reserve} {ci.crr} {ci.maxSupply} {optAddrS ci.owner} {ci.mintable} {ci.burnable}"
+    | none => none
+  | ["cand", id] =>
+    match lookupFirst (fun cd => cd.id == natD id) s.candidates with
+    | some cd => some s!"{pkS cd.pubkey} {addrS cd.owner} {addrS cd.reward} {addrS cd.control} {cd.commission} {cd.status} {cd.jailedUntil} {cd.lastEditCommission} {cd.totalBip}"
+    | none => none
+  | ["st", cid, ow, c] =>
+    match lookupFirst (fun cd => cd.id == natD cid) s.candidates with
+    | some cd =>
+      match lookupFirst (fun st => st.owner == hexNat ow && st.coin == natD c) cd.stakes with
+      | some st => some s!"{st.value} {st.bip}"
+      | none => none
+    | none => none
+  | ["up", cid, i] =>
+    match lookupFirst (fun cd => cd.id == natD cid) s.candidates with
+    | some cd =>
+      match cd.updates[natD i]? with
+      | some st => some s!"{addrS st.owner} {st.coin} {st.value} {st.bip}"
+      | none => none
+    | none => none
+  | ["wl", cid, ow, c] =>
+    let l := s.waitlist.filter (fun w => w.cand == natD cid && w.owner == hexNat ow && w.coin == natD c)
+    if l.isEmpty then none else some (toString (l.foldl (fun acc w => acc + w.value) 0))
+  | ["ff", h, i] =>
+    match (s.frozen.filter (fun f => f.height == natD h))[natD i]? with
+    | some f => some s!"{addrS f.addr} {optPkS f.candKey} {f.candId} {f.coin} {f.value} {f.moveTo}"
+    | none => none
+  | ["p", c0, c1] =>
+    match lookupFirst (fun p => p.c0 == natD c0 && p.c1 == natD c1) s.pools with
+    | some p => some s!"{p.id} {p.r0} {p.r1}"
+    | none => none
+  | ["o", id] =>
+    match lookupFirst (fun o => o.id == natD id) s.orders with
+    | some o => some s!"{o.c0} {o.c1} {o.isSale} {o.v0} {o.v1} {addrS o.owner} {o.height}"
+    | none => none
+  | ["v", pk] =>
+    match lookupFirst (fun v => v.pubkey == hexNat pk) s.validators with
+    | some v => some (if v.toDrop then "drop" else "live")
+    | none => none
+  | ["uc", h] => if s.usedChecks.contains h then some "1" else none
+  | ["h", h, pk] => if s.halts.contains (natD h, hexNat pk) then some "1" else none
+  | ["cv", h, pk] => (s.cvotes.lookup (natD h, hexNat pk))
+  | ["uv", h, pk] => (s.uvotes.lookup (natD h, hexNat pk))
+  | ["blk", pk] => if s.blocklist.contains (hexNat pk) then some "1" else none
+  | ["app", "slashed"] => some (toString s.slashed)
+  | ["app", "rewards"] => some (toString s.rewardsPool)
+  | ["app", "ncoins"] => some (toString s.ncoins)
+  | ["app", "nextorder"] => some (toString s.nextOrder)
+  | _ => none
+
+/-- Which dump keys `State.valueAt` speaks about (others are not compared). -/
+def State.tracksKey (key : String) : Bool :=
+  match words key with
+  | "b" :: _ | "n" :: _ | "ms" :: _ | "ls" :: _ | "c" :: _ | "cand" :: _ | "st" :: _ | "up" :: _ | "wl" :: _ | "ff" :: _
+  | "p" :: _ | "o" :: _ | "v" :: _ | "uc" :: _ | "h" :: _ | "cv" :: _ | "uv" :: _ | "blk" :: _ => true
+  | ["app", "slashed"] | ["app", "rewards"] | ["app", "ncoins"] | ["app", "nextorder"] => true
+  | _ => false
 
 /-- Apply one delta line (`=key<TAB>value` or `-key`) to a dump. -/
 def Dump.applyLine (d : Dump) (line : String) : Dump :=
